@@ -412,6 +412,10 @@ func genAuthScenario(r *Rng, ver string) *AuthScenario {
 	cc := map[string]interface{}{}
 	if !verImpl.PrivilegedCreators() || r.Chance(30) {
 		cc["creator"] = creator
+		// from version 11 on the member means nothing: whoever it names is no creator (seeded change C08-r5m2)
+		if verImpl.PrivilegedCreators() && r.Chance(60) {
+			cc["creator"] = Pick(r, authUsers[1:])
+		}
 	}
 	if r.Chance(70) {
 		cc["room_version"] = ver
